@@ -88,7 +88,51 @@ def _validity_prelude(stmts, fname):
         raise UnknownShape(f'{fname}: validity checks in unexpected order {seen}')
 
 
-def _valid_sub_element(fn) -> Tuple[List[Tuple[str, List[str]]], List[str]]:
+def _child_table_lookup(stmts, tree):
+    """second known shape of the rule table: `if parent_tag not in TABLE: raise ValueError(…)` followed by
+    `return child_tag in TABLE[parent_tag]`, TABLE a module-level dict literal {<str>: {<str>, …} | set()} that is
+    bound once and never written to.  Same meaning as the if/elif chain: one arm per key (the keys of a dict literal
+    are distinct), an empty set = a leaf parent, an unknown parent raises ValueError.  None if not that shape."""
+    guard, ret = stmts
+    if not (isinstance(guard, ast.If) and not guard.orelse and isinstance(guard.test, ast.Compare)
+            and len(guard.test.ops) == 1 and isinstance(guard.test.ops[0], ast.NotIn) and _is_name(guard.test.left, 'parent_tag')
+            and len(guard.body) == 1 and isinstance(guard.body[0], ast.Raise) and isinstance(guard.body[0].exc, ast.Call)
+            and _is_name(guard.body[0].exc.func, 'ValueError')):
+        return None
+    if not (isinstance(ret, ast.Return) and isinstance(ret.value, ast.Compare) and len(ret.value.ops) == 1
+            and isinstance(ret.value.ops[0], ast.In) and _is_name(ret.value.left, 'child_tag')
+            and isinstance(ret.value.comparators[0], ast.Subscript) and isinstance(ret.value.comparators[0].value, ast.Name)
+            and _is_name(ret.value.comparators[0].slice, 'parent_tag')):
+        return None
+    name = ret.value.comparators[0].value.id
+    defs = [n for n in tree.body if isinstance(n, ast.Assign) and len(n.targets) == 1 and _is_name(n.targets[0], name)]
+    if len(defs) != 1 or not isinstance(defs[0].value, ast.Dict):
+        _fail(ret, f'expected exactly one module-level dict literal {name}')
+    d = defs[0].value
+    # the guard must test membership in the same table (by name, or — after constant propagation — its literal)
+    g = guard.test.comparators[0]
+    if not (_is_name(g, name) or (isinstance(g, ast.Dict) and ast.dump(g) == ast.dump(d))):
+        _fail(guard, f'expected `parent_tag not in {name}`')
+    for n in ast.walk(tree):
+        if isinstance(n, ast.Name) and n.id == name and isinstance(n.ctx, (ast.Store, ast.Del)) and n is not defs[0].targets[0]:
+            _fail(n, f'{name} is rebound')
+        if isinstance(n, ast.Attribute) and _is_name(n.value, name):
+            _fail(n, f'a method of {name} is used')
+        if isinstance(n, ast.Subscript) and _is_name(n.value, name) and isinstance(n.ctx, (ast.Store, ast.Del)):
+            _fail(n, f'{name} is written to')
+    table, leaf, seen = [], [], set()
+    for k, v in zip(d.keys, d.values):
+        if not (isinstance(k, ast.Constant) and isinstance(k.value, str)) or k.value in seen:
+            _fail(d, f'{name}: keys must be distinct string literals')
+        seen.add(k.value)
+        if isinstance(v, ast.Call) and _is_name(v.func, 'set') and not v.args and not v.keywords:
+            leaf.append(k.value)
+        else:
+            table.append((k.value, _str_set(v)))
+    return table, sorted(set(leaf))
+
+
+def _valid_sub_element(fn, tree=None) -> Tuple[List[Tuple[str, List[str]]], List[str]]:
     body = [s for s in fn.body if not (isinstance(s, ast.Expr) and isinstance(s.value, ast.Constant))]
     _validity_prelude(body, 'is_valid_pagexml_sub_element')
     rest = body[2:]
@@ -101,6 +145,9 @@ def _valid_sub_element(fn) -> Tuple[List[Tuple[str, List[str]]], List[str]]:
               and isinstance(st.value.args[1], ast.Constant) and st.value.args[1].value == '')
         if not ok:
             _fail(st, 'expected `tag = tag.replace(PAGE, "")`')
+    looked_up = _child_table_lookup(rest[2:], tree) if tree is not None and len(rest) == 4 else None
+    if looked_up is not None:
+        return looked_up
     if len(rest) != 3 or not isinstance(rest[2], ast.If):
         raise UnknownShape('is_valid_pagexml_sub_element: expected one if/elif chain after the prelude')
     table: List[Tuple[str, List[str]]] = []
@@ -217,7 +264,7 @@ def extract(repo: str) -> Dict[str, object]:
             valid_tags = _str_set(n.value)
     if valid_tags is None:
         raise UnknownShape('VALID_TAGS not found')
-    table, leaf = _valid_sub_element(_func(tree, 'is_valid_pagexml_sub_element'))
+    table, leaf = _valid_sub_element(_func(tree, 'is_valid_pagexml_sub_element'), tree)
     single = _singleton(_func(tree, 'is_pagexml_singleton_relation'))
     g = _tag_guard(_func(tree, 'add_pagexml_coords'))
     if len(g) != 1 or not g[0][2]:
